@@ -42,7 +42,7 @@ theorem setOpImpl_two (E : Env) (ety : Ty) (k : SetOpKind) (ida idb : List Int) 
     simp [Value.whollyKnown, Payload.whollyKnown, hka]
   have hwb : (⟨.set ety, .sset idb vb⟩ : Value).whollyKnown = true := by
     simp [Value.whollyKnown, Payload.whollyKnown, hkb]
-  simp [setOpImpl, setOpLoop, hc, hwa, hwb, asValueSet_set E ety ida va hha, asValueSet_set E ety idb vb hhb, he]
+  simp [setOpImpl, Ty.isDyn, setOpLoop, hc, hwa, hwb, asValueSet_set E ety ida va hha, asValueSet_set E ety idb vb hhb, he]
 
 /-- the set-theoretic meaning of each function -/
 def SetOpKind.spec (k : SetOpKind) (a b : Prop) : Prop :=
@@ -114,12 +114,12 @@ def setArgs (ety : Ty) (sets : List (List Int × List Payload)) : List Value :=
   sets.map fun s => ⟨.set ety, .sset s.1 s.2⟩
 
 theorem setOpElemTypes_same (ety : Ty) (hd : ety.equals .dyn = false) (sets : List (List Int × List Payload)) :
-    setOpElemTypes (setArgs ety sets) = .ok (sets.map fun _ => ety) := by
+    setOpElemTypes (setArgs ety sets) = .ok (some (sets.map fun _ => ety)) := by
   induction sets with
   | nil => rfl
   | cons s rest ih =>
     have hk : (⟨.set ety, .sset s.1 s.2⟩ : Value).isKnown = true := rfl
-    simp only [setArgs, List.map_cons, setOpElemTypes, elementTypeOf, hk, Bool.not_true, Bool.false_eq_true,
+    simp only [setArgs, List.map_cons, setOpElemTypes, Ty.isDyn, elementTypeOf, hk, Bool.not_true, Bool.false_eq_true,
       if_false, lengthInt_set, hd, Bool.and_false]
     simp only [setArgs] at ih
     rw [ih]
@@ -136,6 +136,33 @@ theorem setOpType_same (E : Env) (ety : Ty) (hd : ety.equals .dyn = false)
   | cons s rest =>
     simp only [List.map_cons] at hu ⊢
     rw [hu]
+
+/-! ### a dynamically-typed argument (/repo 8027069) -/
+
+/-- the loop of `setOperationReturnType` leaves at the first argument of the dynamic
+pseudo-type, whatever follows it (known sets of one element type before it) -/
+theorem setOpElemTypes_dyn (ety : Ty) (sets : List (List Int × List Payload)) (d : Value) (rest : List Value)
+    (hd : d.ty = .dyn) :
+    setOpElemTypes (setArgs ety sets ++ d :: rest) = .ok none := by
+  induction sets with
+  | nil => simp [setArgs, setOpElemTypes, hd, Ty.isDyn]
+  | cons s more ih =>
+    have hk : (⟨.set ety, .sset s.1 s.2⟩ : Value).isKnown = true := rfl
+    simp only [setArgs] at ih
+    simp only [setArgs, List.map_cons, List.cons_append, setOpElemTypes, Ty.isDyn, elementTypeOf, hk, Bool.not_true,
+      Bool.false_eq_true, if_false, lengthInt_set, ih]
+
+/-- result type: the dynamic pseudo-type as soon as one argument is dynamically typed -/
+theorem setOpType_dyn (E : Env) (ety : Ty) (sets : List (List Int × List Payload)) (d : Value) (rest : List Value)
+    (hd : d.ty = .dyn) :
+    setOpType E (setArgs ety sets ++ d :: rest) = .ok .dyn := by
+  simp only [setOpType, setOpElemTypes_dyn ety sets d rest hd]
+
+/-- `Impl` handed the dynamic pseudo-type as return type answers `cty.DynamicVal`
+before it looks at any argument -/
+theorem setOpImpl_dyn (E : Env) (k : SetOpKind) (args : List Value) :
+    setOpImpl E k args .dyn = .ok Value.dynVal := by
+  simp [setOpImpl, Ty.isDyn]
 
 end Stdlib
 end CtyModel
